@@ -328,10 +328,7 @@ def r2_single_writer(ctx, prog):
     return r
 
 
-def r3_traversal(ctx, prog):
-    r = Rule("C11.R3", "index_strings visits what the generators render; reduce() precedes it",
-             "a literal the generator renders but index_strings skipped keeps index usize::MAX; the only kind skipped on purpose "
-             "(foreign keys) must have been inlined by reduce() first", floor=10)
+def _r3_structural(ctx, r):
     ast = ctx.ast
     ftrav(r, "ParsedValue::index_strings", ast.fn(PV, "index_strings", impl_self="ParsedValue"), {
         "Literal": (["index_strings"], "the literal"),
@@ -354,6 +351,60 @@ def r3_traversal(ctx, prog):
         r.inst("Plurals::index_strings", "every form, then other")
     else:
         r.viol("R3:Plurals::index_strings", "is `%s`" % t, file="leptos_i18n_parser/src/parse_locales/plurals.rs")
+
+
+def r3_traversal(ctx, prog):
+    r = Rule("C11.R3", "index_strings visits what the generators render; reduce() precedes it",
+             "a literal the generator renders but index_strings skipped keeps index usize::MAX; the only kind skipped on purpose "
+             "(foreign keys) must have been inlined by reduce() first", floor=10)
+    ast = ctx.ast
+    fnx = ast.fn(PV, "index_strings", impl_self="ParsedValue")
+    decided = False
+    if fnx is None:
+        r.missing("ParsedValue::index_strings")
+    else:
+        # evaluated (rules/absint.py): the text of every string literal below a value - in blocs, components, range branches,
+        # plural forms and `other` - is handed to the indexer, in rendering order; nothing else is
+        from rules import absint, fkeval
+        from rules.absint import AEval, C, I, A
+        from rules.fkeval import Var, Comp, Bloc, Rng, Plu, Exact, FALLBACK, S
+        absint.set_program(ast)
+
+        def Lit(t_):
+            return C("Literal", C("String", S(t_), C("MAX")))
+        vals = [("a literal", Lit("a"), ["a"]), ("a bloc with a repeated text", Bloc(Lit("a"), Var("var_x"), Lit("b"), Lit("a")), ["a", "b", "a"]),
+                ("nested components", Comp("comp_b", Bloc(Lit("c"), Comp("comp_i", Lit("d")), Lit("e"))), ["c", "d", "e"]),
+                ("a range", Rng("var_count", "I32", [(Exact(0), Lit("zero")), (Exact(1), Comp("comp_b", Lit("one"))), (FALLBACK, Bloc(Var("var_count"), Lit(" many")))]), ["zero", "one", " many"]),
+                ("a float range", Rng("var_count", "F64", [(Exact(0), Lit("z")), (FALLBACK, Lit("f"))]), ["z", "f"]),
+                ("a plural", Plu("var_count", "Cardinal", [("One", Lit("one")), ("Few", Bloc(Lit("few "), Var("var_count")))], Lit("other")), ["one", "few ", "other"]),
+                ("a plural in a component in a bloc", Bloc(Lit("x"), Comp("comp_b", Plu("var_n", "Ordinal", [("Two", Lit("nd"))], Lit("th"))), Lit("y")), ["x", "nd", "th", "y"]),
+                ("a number", C("Literal", C("Unsigned", I(3))), []), ("a variable", Var("var_x"), []), ("null", C("Default"), []), ("a group", C("Subkeys", C("None")), [])]
+        badx = None
+        try:
+            for label, v, want in vals:
+                log = []
+
+                def push(rv, a, log=log):
+                    log.append(a[0][1] if a[0][0] == "str" else absint.fmt(a[0]))
+                    return I(len(log) - 1)
+                ev = AEval(funcs={}, builtins={"push_str": push})
+                ev.consts = {"usize::MAX": C("MAX")}
+                got = ev.run_fn(fnx, [v, A("strings")])
+                if isinstance(got, str):
+                    raise absint.Unknown("%s (index_strings on %s)" % (got, label))
+                if log != want and badx is None:
+                    badx = "%s: the indexer is handed %s, the value renders the texts %s" % (label, log, want)
+            decided = True
+            if badx:
+                r.viol("R3:ParsedValue::index_strings#every-text", badx, file=fnx.file, line=fnx.line)
+            else:
+                r.inst("ParsedValue::index_strings (evaluated)", "%d values of every kind: every literal text below the value is pushed, once per occurrence, in rendering order" % len(vals))
+        except absint.Unknown as u:
+            r.viol("R3:index_strings#undecided", "index_strings cannot be interpreted on the current code (%s): not decided on this tree (fail closed); structural clauses follow" % str(u)[:300], file=fnx.file, line=fnx.line)
+    if decided:
+        r.floor = 3
+    else:
+        _r3_structural(ctx, r)
     # reduce precedes index_strings
     b = prog.body("parsed_value::ParsedValue::merge")
     if b is not None:
@@ -449,15 +500,31 @@ def r5_templates(ctx):
     if fn is None:
         r.missing("macro Literal::to_token_stream")
     else:
-        qs = [flat(tok_text(q["tokens"])) for q in xquotes(fn.body)]
-        want1 = "l_i18n_crate::__private::index_translations::<#strings_count,#index>(#translations_key)"
-        if any(q == want1 for q in qs) and any(q == "{constS:&str=%s;S}" % want1 for q in qs):
-            r.inst("Literal::to_token_stream", "index_translations::<strings_count, index>(table) (in a const item when baked)")
-        else:
-            r.viol("R5:Literal::to_token_stream", "literal reads are not `index_translations::<#strings_count, #index>`: %s" % qs[:2], file=fn.file, line=fn.line)
-        t = flatp(show(fn.body))
-        if not has(t, "Literal::String_,index=>{"):
-            r.viol("R5:Literal::to_token_stream#index", "the index emitted is not the literal's own index", file=fn.file, line=fn.line)
+        # evaluated (rules/absint.py): the tokens emitted for a string literal with index 3 in a table of 9
+        from rules import absint as _ai
+        from rules.absint import AEval as _AE, C as _C, CF as _CF, I as _I, TOK as _TOK
+        _ai.set_program(ast)
+        okk = True
+        for dyn in (True, False):
+            ev = _AE(funcs={})
+            ev.cfg = lambda t_, dyn=dyn: dyn
+            ev.path_builtins["Key::new"] = lambda a: _C("Some", _CF("Key", name=a[0], ident=_TOK(a[0][1] if a[0][0] == "str" else "KEY")))
+            ev.builtins["unwrap_at"] = lambda rv, a: rv[2][0] if rv[0] == "ctor" and rv[2] else rv
+            ev.totokens = lambda v: _ai.fields_of(v)["ident"][1] if v[0] == "ctor" and v[1] == "Key" else None
+            try:
+                got = ev.run_fn(fn, [_C("String", ("str", "txt"), _I(3)), _I(9)])
+            except _ai.Unknown as u:
+                got = "UNKNOWN: %s" % u
+            txt = flat(got[1]) if not isinstance(got, str) and got[0] == "tok" else None
+            m_ = re.match(r"^(\{constS:&str=)?l_i18n_crate::__private::index_translations::<9,3>\((\w+)\)(;S\})?$", txt or "")
+            if txt is None:
+                r.viol("R5:Literal::to_token_stream#undecided", "cannot be interpreted on the current code (%s): not decided (fail closed)" % (got if isinstance(got, str) else _ai.fmt(got))[:200], file=fn.file, line=fn.line)
+                okk = False
+            elif not m_ or bool(m_.group(1)) != bool(m_.group(3)) or bool(m_.group(1)) == dyn:
+                r.viol("R5:Literal::to_token_stream", "a string literal with index 3 in a table of 9 is read as `%s` (%s build); expected index_translations::<9, 3>(table)%s" % (txt, "dynamic_load" if dyn else "static", "" if dyn else " inside a const item"), file=fn.file, line=fn.line)
+                okk = False
+        if okk:
+            r.inst("Literal::to_token_stream", "index_translations::<strings_count, own index>(table) (in a const item when baked)")
     fn = ast.fn(ML, "create_locale_type_inner")
     if fn is not None:
         t = flatp(show(fn.body))
